@@ -68,6 +68,17 @@ class C01(Prop):
             if i % 7 == 1:
                 g.readcall = 0.3  # calls that return a value (impure inputs of setups): oracle only
             yield {"kind": "dedup", "src": g.program(), "xseed": rng.getrandbits(32)}
+        for i in range(60 if tier == "quick" else 900):
+            yield {"kind": "dedup", "src": ac.hoist_chain_program(random.Random(rng.getrandbits(48))), "xseed": rng.getrandbits(32)}
+        for i in range(20 if tier == "quick" else 300):
+            # more of the focused form, shallow: setup/launch pairs of one accelerator separated by conditionals / loops that drive
+            # it or only the other accelerator (the legality checks of hoisting and merging look ACROSS such statements)
+            g = ac.Gen(random.Random(rng.getrandbits(48)), full=True, depth=rng.choice([1, 1, 2]), carried=0.0)
+            g.accs = ac.ACCS
+            g.scope_accs = [g.accs]
+            g.focus = True
+            g.sticky = rng.choice([0.5, 0.8])
+            yield {"kind": "dedup", "src": g.program(), "xseed": rng.getrandbits(32)}
         for i in range(100 if tier == "quick" else 1500):
             # small single-accelerator programs over three configurations (alternating / restoring inside a loop)
             yield {"kind": "dedup", "src": ac.redundancy_program(random.Random(rng.getrandbits(48))), "xseed": rng.getrandbits(32)}
